@@ -108,16 +108,15 @@ func GenGenuine(r *rand.Rand, w *World, o GenOpts) *Genuine {
 			if c == "cr" && o.NoCR {
 				continue
 			}
-			if attr && (c == "cr" || strings.Contains(v, "]]>")) {
-				// XML-attribute positions: keep these two rare (recorded findings K1/K2)
+			if attr && c == "cr" {
+				g.AttrCR = true // formerly finding K1 (repaired as F11); still tracked so that a regression is keyed
+			}
+			if attr && strings.Contains(v, "]]>") {
+				// XML-attribute positions: keep this rare (recorded finding K2)
 				if o.NoCR || r.IntN(40) != 0 {
 					continue
 				}
-				if c == "cr" {
-					g.AttrCR = true
-				} else {
-					g.AttrCDEnd = true
-				}
+				g.AttrCDEnd = true
 			}
 			if c == "cr" {
 				g.HasCR = true
